@@ -29,7 +29,7 @@ NEUTRAL = ('TimeoutError', 'FailedFastError', 'NoMembersError', 'ClientError', '
 DECODE_ERRS = ('KeyError', 'error', 'TypeError', 'ValueError', 'AttributeError', 'UnicodeDecodeError',
                'UnicodeEncodeError', 'TProtocolException', 'IndexError', 'TTransportException',
                'OverflowError', 'AssertionError', 'NotImplementedError')
-WELL_FORMED = ('ok', 'empty', 'missing', 'declared', 'appexc', 'nack', 'rerror', 'rerr', 'bad_rerr')
+WELL_FORMED = ('ok', 'empty', 'missing', 'declared', 'declared2', 'appexc', 'nack', 'rerror', 'rerr', 'bad_rerr')
 
 
 class ScriptedServerSet(ServerSetProvider):
@@ -625,7 +625,7 @@ class StackWorld(object):
       else:
         name = exc_name(obj)
         inner = getattr(obj, 'inner_exception', None)
-        if name == 'Oops':
+        if name in ('Oops', 'Denied'):
           o = 'declared'
         elif name == 'TApplicationException':
           o = 'appexc'
@@ -651,10 +651,13 @@ class StackWorld(object):
         continue
       if K is None and r.server.muted:
         K = 'muted'
-      want = {'ok': 'value', 'empty': 'value', 'missing': 'appexc', 'declared': 'declared', 'appexc': 'appexc',
+      want = {'ok': 'value', 'empty': 'value', 'missing': 'appexc', 'declared': 'declared', 'declared2': 'declared',
+              'appexc': 'appexc',
               'nack': 'servererror', 'rerror': 'servererror', 'rerr': 'servererror',
               'bad_rerr': 'servererror'}.get(K)
-      if K == 'declared' and c.method not in ('risky', 'guard'):
+      if K == 'declared' and c.method not in ('risky', 'guard', 'multi'):
+        want = 'value'
+      if K == 'declared2' and c.method != 'multi':
         want = 'value'
       prop = 'C14'
       if want == 'servererror' or (o == 'servererror'):
@@ -692,7 +695,12 @@ class StackWorld(object):
                         {'method': c.method})
       elif o == 'declared':
         inner = getattr(obj, 'inner_exception', obj)
-        if getattr(inner, 'why', None) != 'declared:%s' % c.id:
+        exp_why = '%s:%s' % (K, c.id)
+        exp_type = 'Denied' if K == 'declared2' else 'Oops'
+        if type(inner).__name__ != exp_type:
+          REC.violation('C14', 'wrong_declared_exception',
+                        'call %s: the server raised %s, the caller got %s' % (c.id, exp_type, type(inner).__name__))
+        elif getattr(inner, 'why', None) != exp_why or (K == 'declared2' and getattr(inner, 'code', None) != 7):
           REC.violation('C02', 'wrong_exception', 'call %s got %r' % (c.id, inner))
       elif o == 'servererror':
         inner = getattr(obj, 'inner_exception', obj)
